@@ -2,6 +2,9 @@
 import argparse, concurrent.futures as cf, hashlib, json, os, re, shutil, subprocess, sys, tempfile, time
 
 VERIF = os.path.dirname(os.path.dirname(os.path.abspath(__file__)))
+# a run against another tree than /repo (VERIF_REPO: seeded or benign changes on a private worktree) keeps its
+# evidence and replay files out of /verif: what is committed there comes from runs against /repo itself
+OUTROOT = VERIF if not os.environ.get("VERIF_REPO") else os.path.join("/var/tmp", "verif_alt_" + re.sub(r"[^A-Za-z0-9]", "_", os.environ["VERIF_REPO"]))
 SPEC = os.path.join(VERIF, "spec")
 HARNESS = os.path.join(VERIF, "harness")
 REPO = os.environ.get("VERIF_REPO", "/repo")   # the tree under test (a snapshot for background runs)
@@ -232,10 +235,10 @@ class Run:
 
 
 def write_replay(prop, recipe, ev, codes):
-    os.makedirs(os.path.join(VERIF, "replays"), exist_ok=True)
+    os.makedirs(os.path.join(OUTROOT, "replays"), exist_ok=True)
     body = dict(property=prop, recipe=recipe, codes=codes, event=ev)
     h = hashlib.sha1(json.dumps([prop, recipe, codes], sort_keys=True).encode()).hexdigest()[:12]
-    path = os.path.join(VERIF, "replays", "%s-%s.json" % (prop, h))
+    path = os.path.join(OUTROOT, "replays", "%s-%s.json" % (prop, h))
     with open(path, "w") as f:
         json.dump(body, f)
     return path
@@ -297,8 +300,8 @@ def finish(run, level, technique_note):
             known_findings_seen=run.known, **run.extra),
         assumptions=run.assumptions, wall_s=round(time.time() - run.t0, 1),
         violations=len(run.violations))
-    os.makedirs(os.path.join(VERIF, "evidence"), exist_ok=True)
-    with open(os.path.join(VERIF, "evidence", run.prop + ".json"), "w") as f:
+    os.makedirs(os.path.join(OUTROOT, "evidence"), exist_ok=True)
+    with open(os.path.join(OUTROOT, "evidence", run.prop + ".json"), "w") as f:
         json.dump(ev, f, indent=1)
     for k in run.known:
         log(k)
